@@ -32,9 +32,16 @@ def rules(ctx, report, facts, config, pfx="C10"):
         report.guard(pfx + ".WIDTH", P.width, ctx, report, pfx + ".WIDTH", facts, config)
 
 
-def run(ctx, report):
+def _run_rules(ctx, report):
     for config in ctx.configs:
         rules(ctx, report, ctx.facts(config), config)
     if ctx.tier == "thorough":
         from .. import positives as POS
         POS.engine(ctx, report, "C10.ENGINE")
+
+
+def run(ctx, report):
+    _run_rules(ctx, report)
+    from .. import shared as _S
+    for config in ctx.configs:
+        report.guard("C10.ENCAPSULATED", _S.encapsulated, ctx, report, "C10.ENCAPSULATED", ctx.facts(config), config, "C10")
